@@ -450,7 +450,7 @@ Definition value_class (v : value) : string :=
   match v with
   | VShell _ => "AssetAdministrationShell" | VSm _ => "Submodel" | VCd _ => "ConceptDescription"
   | VElem _ => "SubmodelElement" | VQual _ _ => "Qualifier" | VRef _ => "ModelReference"
-  | VAsset _ => "AssetInformation" | VKeys _ _ _ => "ModelReference"
+  | VAsset _ => "AssetInformation" | VKeys _ _ _ => ""   (* only occurs in responses *)
   end.
 Definition smode_on (mode : string) (q : query) : bool :=
   if String.eqb mode "always" then true else if String.eqb mode "level" then q_core q else false.
@@ -780,10 +780,10 @@ Definition handler (ep : endpoint) (s : state) (r : request) : HR :=
                  | [] => Ok (sm_ch sm)
                  | _ => do pe <- get_nested sm pp; Ok (e_ch pe)
                  end);
-      do ch' <- (match e_ids e with
-                 | Some i => guard H_ns_op (remove_referable pch i) (Ok pch)
-                 | None => Exc EKey
-                 end);
+      do ch' <- guard H_ns_op (match e_ids e with
+                                | Some i => remove_referable pch i
+                                | None => Exc EKey          (* no such key in the parent's index *)
+                                end) (Ok pch);
       let s' := match pp with
                 | [] => put_sm_back s (the_id (r_sm r)) sm ch'
                 | _ => edit_sm s (the_id (r_sm r)) sm pp (fun x => Keep (set_ch x ch'))
